@@ -17,7 +17,7 @@ TAIL = ["step idle", "step idle", "step idle", "step idle", "step tick:40", "ste
 class C09(Prop):
     id = "C09"
     title = "No event history or failing task takes the driver down"
-    lean_modules = ["NV.C09.Props", "NV.C09.Witness", "NV.C09.Bridge", "NV.C09.SpecNeg", "NV.C09.BatchThms"]
+    lean_modules = ["NV.C09.Props", "NV.C09.Witness", "NV.C09.Bridge", "NV.C09.SpecNeg", "NV.C09.BatchThms", "NV.C09.PreloadThms"]
     theorems = ["NV.C09.backend_order_as_modelled", "NV.C09.error_handler_order_as_modelled",
                 "NV.C09.call_out_order_as_modelled", "NV.C09.sweep_order_as_modelled",
                 "NV.C09.remove_interactive_order_as_modelled", "NV.C09.user_command_order_as_modelled",
@@ -26,13 +26,15 @@ class C09(Prop):
                 "NV.C09.slot_search_as_modelled", "NV.C09.process_io_as_modelled", "NV.C09.remove_tests_as_modelled",
                 "NV.C09.apply_sites_as_modelled", "NV.C09.guards_present", "NV.C09.apply_touch_as_modelled",
                 "NV.C09.input_to_call_as_modelled", "NV.C09.set_call_as_modelled", "NV.C09.prompt_as_modelled",
-                "NV.C09.command_branches_as_modelled",
+                "NV.C09.command_branches_as_modelled", "NV.C09.preload_as_modelled",
                 "NV.C09.batch_any_order_good", "NV.C09.stale_event_skipped", "NV.C09.freed_record_events_are_stale",
                 "NV.C09.accept_serial_fresh", "NV.C09.applyAction_resolved", "NV.C09.pending_entry_older_than_any_accept",
                 "NV.C09.abandoned_suffix", "NV.C09.abandoned_nil_of_ok", "NV.C09.findConn_id",
                 "NV.C09.input_to_cleared_before_callback", "NV.C09.input_to_first_wins", "NV.C09.input_to_takes_the_line",
                 "NV.C09.no_prompt_while_input_to_pending", "NV.C09.prompt_revalidates", "NV.C09.sweep_keeps_invariant",
                 "NV.C09.failing_cleanup_loses_reset_state", "NV.C09.cleanup_restores_reset_state",
+                "NV.C09.preload_visits_every_file", "NV.C09.preload_epilog_error_loads_nothing", "NV.C09.judge_preload_phase",
+                "NV.C09.preload_keeps_fresh", "NV.C09.backend_total_after_preload", "NV.C09.preloadFiles_visits_all",
                 "NV.C09.judge_crash_clause", "NV.C09.judge_report_clause", "NV.C09.judge_exit_present", "NV.C09.judge_cycles_clause", "NV.C09.runFull_block",
                 "NV.C09.backend_total", "NV.C09.backend_total_prefix", "NV.C09.freed_conn_never_used_run",
                 "NV.C09.hooks_keep_invariant", "NV.C09.runHook_ok", "NV.C09.errorHandler_same", "NV.C09.cmh_flags",
@@ -56,7 +58,7 @@ class C09(Prop):
     level_text = ("PARTIAL (model level). Lean 4 theorem `backend_total` about the model `Backend` (nullable all_users, "
                   "connection records as serials, recovery points, error_handler flag protocol with the master handler ok / "
                   "raising / raising recursively, heart-beat bookkeeping, call_out sweep, reset + clean_up sweep with the "
-                  "walk restarted after an error, remove_interactive, input_to, write_prompt, re-validation after callbacks, batches of "
+                  "walk restarted after an error, preload_objects, remove_interactive, input_to, write_prompt, re-validation after callbacks, batches of "
                   "I/O events of one poll incl. stale entries and batches abandoned by a longjmp): for EVERY finite history of "
                   "external events (any number of accept / data / end-of-file / hang-up / console / timer events per poll, in "
                   "any order) x EVERY task oracle x both modes the run never reaches a modelled NULL dereference or use of "
@@ -288,6 +290,15 @@ class C09(Prop):
         b = body_of(comm, r"\nvoid remove_interactive \(object_t \* ob, int dested\)\s*\{")
         cmp_sites["removeStmts"] = conds_and_updates(b, ["g_num_io_events", "g_io_events", "CLOSING", "dested", "max_users", "all_users"])
 
+        b = body_of(back, r"\nvoid preload_objects \(int eflag\)\s*\{")
+        if b is None:
+            raise X.TieBroken("preload_objects()", "cannot locate preload_objects()")
+        cmp_sites["preloadStmts"] = order(b, [
+            ("save_context", r"save_context\s*\(&econ\)"), ("setjmp", r"setjmp\s*\(econ\.context\)"),
+            ("restore", r"restore_context\s*\(&econ\)"), ("pop_context", r"pop_context\s*\(&econ\)"),
+            ("return", r"return;"), ("epilog", r"apply_master_ob \(APPLY_EPILOG"), ("next_file", r"ix\+\+;"),
+            ("loop", r"for \(; ix < prefiles->size; ix\+\+\)"), ("preload", r"apply_master_ob \(APPLY_PRELOAD")]) + \
+            conds_and_updates(b, ["ix", "prefiles"])
         # ---- inventory of the driver-initiated apply sites of the event loop (protected or not) ----
         def apply_sites(fname, src):
             txt = re.sub(r"/\*.*?\*/", lambda m: re.sub(r"[^\n]", " ", m.group(0)), src, flags=re.S)
@@ -469,6 +480,11 @@ class C09(Prop):
                                   "script u3 it:s w:got", "script u4 prompt cerr;dest:u1", "step conn:c1", "step conn:c2",
                                   "step conn:c3", "step conn:c4", "step send:c1:a/b/ send:c2:a/b/ send:c3:a/b/c/ send:c4:a/",
                                   "step send:c1:c/ tick"])
+        # preload_objects(): a failing file does not stop the rest; a failing epilog() preloads nothing; all three master
+        # error_handler behaviours report the error
+        for meh in ("ok", "raise", "recurse"):
+            mk("preload-" + meh, ["mode net", "meh " + meh, "preload err,ok,err,err,ok", "step conn:c1", "step send:c1:a/"])
+        mk("preload-epilog-fails", ["mode console", "meh recurse", "preload epilog-err", "step cin:a/"])
         mk("connect-rejected", ["mode net", "script k1 connect rej", "step conn:c1", "step conn:c2", "step send:c2:a/"])
         return B
 
@@ -541,6 +557,10 @@ class C09(Prop):
         nobjs = rng.weighted([(0, 2), (1, 3), (2, 3), (3, 2)])
         nusers = rng.range(1, 4)
         verbs = ["a", "b", "boom", "quit", "kick", "x1"]
+        # preload_objects() before backend(): the master's epilog() names 1-4 files, some of which fail to load
+        if rng.chance(25, 100):
+            lines.append("preload " + ("epilog-err" if rng.chance(8, 100) else
+                                       ",".join(rng.choice(["ok", "ok", "err"]) for _ in range(rng.range(1, 4)))))
         for i in range(1, nobjs + 1):
             lines.append("clone o%d /c09/obj" % i)
         density = rng.weighted([(25, 2), (45, 3), (70, 2)])
